@@ -13,6 +13,14 @@ def uints(maximum=2 ** 64 - 1):
     return st.one_of(st.sampled_from(pool), st.integers(0, maximum), st.integers(0, min(maximum, 300)))
 
 
+def dtn_times():
+    ''' DTN times (milliseconds since 2000): any unsigned integer, with extra weight on times a datetime can hold
+    (also entered as datetime objects / ISO text by C02) and on the spans in which the number of seconds needs one more
+    bit than before while the milliseconds still fit a double's integer range comfortably (2004, 2008, 2017, 2034, 2068). '''
+    spans = [st.integers(2 ** k * 1000, 2 ** (k + 10) - 1) for k in range(27, 32)]
+    return st.one_of(uints(), st.integers(1, 253402300799999 - 946684800000), *spans)
+
+
 def small_uints():
     return st.one_of(st.sampled_from([0, 1, 23, 24, 255, 256]), st.integers(0, 70000))
 
@@ -70,7 +78,7 @@ def primaries(draw, fragment=None, admin=False, extended_eid=False):
         frag = [draw(uints()), draw(uints())]
     return dict(version=7, flags=flags, crc_type=draw(st.sampled_from([0, 1, 2])),
                 dest=draw(eids(extended_eid)), src=draw(eids(extended_eid)), rpt=draw(eids(extended_eid)),
-                ts=[draw(uints()), draw(uints())], lifetime=draw(uints()), frag=frag)
+                ts=[draw(dtn_times()), draw(uints())], lifetime=draw(uints()), frag=frag)
 
 
 def payload_bytes(max_size=400):
@@ -122,7 +130,7 @@ def status_reports(draw, extended_eid=False):
         asserted = draw(st.booleans())
         if asserted and want_time and draw(st.booleans()):
             # DTN time 0 ("unknown") is what a clock-less reporter writes: make it frequent
-            status.append([True, draw(st.one_of(st.just(0), uints(), uints()))])
+            status.append([True, draw(st.one_of(st.just(0), uints(), dtn_times()))])
         else:
             status.append([asserted])
     reason = draw(st.sampled_from([0, 1, 2, 3, 4, 5, 6, 7, 8, 9, 10, 11, 12, 13, 14, 15, 16]))
@@ -130,7 +138,7 @@ def status_reports(draw, extended_eid=False):
         # a reason code the registry has not assigned (yet): still an RFC 9171 unsigned integer
         reason = draw(st.sampled_from(UNASSIGNED_REASONS))
     frag = [draw(uints()), draw(uints())] if draw(st.booleans()) else None
-    return ref9171.status_report(status, reason, draw(eids(extended_eid)), [draw(uints()), draw(uints())], frag)
+    return ref9171.status_report(status, reason, draw(eids(extended_eid)), [draw(dtn_times()), draw(uints())], frag)
 
 
 @st.composite
